@@ -39,3 +39,120 @@ Proof. exact adopt_exact. Qed.
 Check c16_adopt_of_consistent_store.
 Print Assumptions c16_adopt_of_consistent_store.
 
+
+(* ---- after adopting a damaged store: invariant, connect, new publishes, reception ---- *)
+(* C16 — additions for props/C16.v: what the client returned by AdoptSession on an
+   ARBITRARILY damaged Persistence can do afterwards.
+   To be appended to coq/props/C16.v; needs
+     From MQ Require Import AdoptDamaged ResendOrder InboundTie.
+   Store hypotheses used below (coq/theories/AdoptDamaged.v):
+     sorted_keys m      a finite map (ascending keys)
+     bytes_store m      of byte strings
+     rel_in_space m     a decodable PUBREL-headed record lives in the exactly-once key space
+                        (true of every record the client wrote; false only for a record FORGED
+                        with a valid checksum: c16_forged_pubrel_bricks)
+     cid_ok m           key 0 decodes or is absent (damaged: known finding F15)
+   Nothing else is assumed about which records decode. *)
+From MQ Require Import Session Outbound OutboundInv OutboundRefine AdoptProofs RecordProofs
+     ResendOrder InboundTie AdoptDamaged.
+
+(* a byte string that decodes IS encode_value of its packet and storage number: "decodable" = "genuinely saved record" (no third kind) *)
+Theorem c16_decodable_is_genuine : ltac:(let t := type of decode_inv in exact t).
+Proof. exact decode_inv. Qed.
+Check c16_decodable_is_genuine.
+Print Assumptions c16_decodable_is_genuine.
+
+(* shape of the adopted client on ANY store: the three kept runs are windows of consecutive keys, each key holding a decodable record of its kind in the original store, in non-decreasing storage order; every deletion is counted in the warnings *)
+Theorem c16_adopted_shape : ltac:(let t := type of adopted_shape in exact t).
+Proof. exact adopted_shape. Qed.
+Check c16_adopted_shape.
+Print Assumptions c16_adopted_shape.
+
+(* (a) the adopted state (client + purged store) satisfies DInv = OInv' minus "nothing else lives in the publish key spaces" (skipped records are not deleted) minus strictness of the storage order; windows hold records of the ORIGINAL store in the order saved; the storage counter continues above every record left *)
+Theorem c16_adopted_inv : ltac:(let t := type of Adopted_inv in exact t).
+Proof. exact Adopted_inv. Qed.
+Check c16_adopted_inv.
+Print Assumptions c16_adopted_inv.
+
+(* DInv is weaker than the working invariant OInv' ... *)
+Theorem c16_dinv_weaker_than_oinv : ltac:(let t := type of OInv'_DInv in exact t).
+Proof. exact OInv'_DInv. Qed.
+Check c16_dinv_weaker_than_oinv.
+Print Assumptions c16_dinv_weaker_than_oinv.
+
+(* ... is kept by every abstract outbound step (no bound on the storage counter needed) ... *)
+Theorem c16_dinv_step : ltac:(let t := type of dinv_step in exact t).
+Proof. exact dinv_step. Qed.
+Check c16_dinv_step.
+Print Assumptions c16_dinv_step.
+
+(* ... hence by every later API call under every environment script: the adopted client goes on *)
+Theorem c16_dinv_every_history : ltac:(let t := type of dinv_run in exact t).
+Proof. exact dinv_run. Qed.
+Check c16_dinv_every_history.
+Print Assumptions c16_dinv_every_history.
+
+(* OInv' itself fails after adoption of a store with a gap, exactly by the clause "nothing else lives in the publish key spaces": the record before the gap is skipped with a warning and stays *)
+Theorem c16_leftover_stays : ltac:(let t := type of leftover_stays in exact t).
+Proof. exact leftover_stays. Qed.
+Check c16_leftover_stays.
+Print Assumptions c16_leftover_stays.
+
+(* (b) every environment: a connect of a client in DInv ends as one of the constructors of connect_run: success, or a failure of the environment (key-0 Load, Dialer, CONNECT/CONNACK, a Write, an injected Load failure); never "gone missing", never a corrupt record *)
+Theorem c16_adopted_connect_any_environment : ltac:(let t := type of adopted_connect_any in exact t).
+Proof. exact adopted_connect_any. Qed.
+Check c16_adopted_connect_any_environment.
+Print Assumptions c16_adopted_connect_any_environment.
+
+(* (b) accepting broker, any client in DInv whose submit counters have caught up: connect succeeds and the calls are exactly Load 0, Dial, CONNECT, Read, then per sequence number of the two windows, in order, Load + ONE Write of the stored packet (DUP set) *)
+Theorem c16_connect_accepting_broker : ltac:(let t := type of connect_acc in exact t).
+Proof. exact connect_acc. Qed.
+Check c16_connect_accepting_broker.
+Print Assumptions c16_connect_accepting_broker.
+
+(* (b) the client AdoptSession returned on an arbitrary store connects; the wire shows CONNECT, then exactly the packets of the surviving records of the ORIGINAL store, window by window in storage order *)
+Theorem c16_adopted_connects : ltac:(let t := type of adopted_connects in exact t).
+Proof. exact adopted_connects. Qed.
+Check c16_adopted_connects.
+Print Assumptions c16_adopted_connects.
+
+(* (c) any client in DInv: an accepted persisted publish saves under the key of the accept counter, which lies outside BOTH windows (and is neither key 0 nor a marker key): no record of a window is overwritten; a leftover under that key is replaced; DInv again *)
+Theorem c16_publish_after_adoption_fresh : ltac:(let t := type of dinv_publish_fresh in exact t).
+Proof. exact dinv_publish_fresh. Qed.
+Check c16_publish_after_adoption_fresh.
+Print Assumptions c16_publish_after_adoption_fresh.
+
+(* (c) for the adopted client: the window records it leaves untouched are those of the original store *)
+Theorem c16_adopted_accepts_new : ltac:(let t := type of adopted_accepts_new in exact t).
+Proof. exact adopted_accepts_new. Qed.
+Check c16_adopted_accepts_new.
+Print Assumptions c16_adopted_accepts_new.
+
+(* (d) after adoption every record under a marker key decodes (InboundTie.mdec, the invariant of the inbound tie) ... *)
+Theorem c16_adopted_markers_decode : ltac:(let t := type of adopted_mdec in exact t).
+Proof. exact adopted_mdec. Qed.
+Check c16_adopted_markers_decode.
+Print Assumptions c16_adopted_markers_decode.
+
+(* ... so the marker Load of an inbound exactly-once PUBLISH never fails: with no acknowledgement pending the only error on_publish reports is a protocol violation of the packet itself *)
+Theorem c16_adopted_receives : ltac:(let t := type of adopted_receives in exact t).
+Proof. exact adopted_receives. Qed.
+Check c16_adopted_receives.
+Print Assumptions c16_adopted_receives.
+
+(* boundary (outside the quantifier: "not: records forged with a valid checksum"): a PUBREL record with a valid checksum under a key outside the exactly-once space is adopted as a pending release; every connect then fails on "gone missing" *)
+Theorem c16_forged_pubrel_bricks : ltac:(let t := type of forged_pubrel_bricks in exact t).
+Proof. exact forged_pubrel_bricks. Qed.
+Check c16_forged_pubrel_bricks.
+Print Assumptions c16_forged_pubrel_bricks.
+
+(* non-vacuity: a store with a stray entry, the middle record of the at-least-once run altered in one byte and a truncated marker satisfies every store hypothesis *)
+Example c16_damaged_store_hypotheses : ltac:(let t := type of exd_hypotheses in exact t).
+Proof. exact exd_hypotheses. Qed.
+Print Assumptions c16_damaged_store_hypotheses.
+
+(* ... and on it (vm_compute): four warnings (three deletions, one gap), the record before the gap stays, connect writes CONNECT and the one surviving PUBLISH with DUP, the next publish gets identifier 0x8003 and leaves both old records alone *)
+Example c16_damaged_store_run : ltac:(let t := type of exd_run in exact t).
+Proof. exact exd_run. Qed.
+Check c16_damaged_store_run.
+Print Assumptions c16_damaged_store_run.
